@@ -79,6 +79,9 @@ func partAlphabet(col *collector, maxLen int) partResult {
 	var mu sync.Mutex
 	par.ForEach(len(jobs), 0, func(j int) {
 		jb := jobs[j]
+		if pastDeadline() {
+			return
+		}
 		local := map[string]int{}
 		var sb strings.Builder
 		for i := jb.from; i < jb.to; i++ {
@@ -153,6 +156,9 @@ func partTokens(col *collector, maxTokens int) partResult {
 		local := map[string]int{}
 		calls := 0
 		var buf []int
+		if pastDeadline() {
+			return
+		}
 		for i := j * chunk; i < (j+1)*chunk && i < total; i++ {
 			seq := nthSequence(i, n, maxTokens, buf)
 			calls++
